@@ -1,4 +1,47 @@
-"""C14 (delta encoding), C25 (shared poll) -- family `keyed`.  WORK IN PROGRESS (see docstring at the end of the build)."""
+"""C14 (delta encoding reconstructs the published data), C25 (shared-poll keyed delivery) -- family `keyed`.
+
+Specs   spec/Delta/Delta.tla (+DeltaSim)   stream paths: first-full rule, broker vs local (medium) base, filtered
+                                           publications, recovered chain, recovery -> live, wire faults, sessions
+        spec/Delta/DeltaMap.tla            map paths: per-key bases over state / recovery join / live
+        spec/SharedPoll/SharedPoll.tla (+SharedPollSim)  keyed paths + all of C25
+Harness harness/keyed  modes delta (gate replay on GateBroker like harness/substream), mapdelta (sequential replay),
+        sharedpoll (gate replay: OnSharedPoll handler + trace-log call between the two phases of the keyed write),
+        probe (tags-filter policy for delta subscribers).  kconn.go: recording transport for JSON and Protobuf.
+Overlay overlay/keyed/keyed.go: one shim exporting SharedPollManager.SharedPollRevokeKeys (unexported Node field).
+
+Every spec has a reference design that satisfies the property and `AsCoded` switches for the places where TLC showed
+that the code as written does not; the counterexamples of the as-coded configurations are replayed on the real code
+(witnesses, frozen copies spec/*/witness_*.json for the quick tier), the verdict is always the observable-only
+monitor on the real frames: the harness client APPLIES every delivered delta with fdelta.Apply to the bytes it holds
+and compares with the published bytes.
+
+Genuine defects found (all reproduced on the real code; diffs in spec/Delta/*.fix.diff):
+  D1 C14 recovery-to-live:empty-recovery / :after-filtered  flagDeltaAllowed set on every recovered subscribe
+        -> fixed by /repo 0edc212c (d1.fix.diff)
+  D2 C14 json-escape:delta-cuts-utf8 (also keyed: and map paths)  fossil patch cuts a UTF-8 sequence, json.Escape
+        turns the stray byte into U+FFFD -> fixed by /repo b374e37e (d2.fix.diff)
+  D3 C14 map:live:filtered-subscription  map subscription with a tags filter negotiates delta; the per-key base is
+        the key's previous state value which the filter may have withheld (d3.fix.diff: no delta with a filter)
+  C25 epoch-flip:idle-subscription-survives, update-for-untracked-key:after-removal, stale-epoch-data:push
+        (no small safe fix; see the final report / known_findings.json)
+
+Mutation testing (FRAMEWORK.md rule 3; scratch worktrees /tmp/keyed-*, baseline = HEAD + d1..d3), `./check` exit:
+  C14 m1 first-full rule skipped on the positioned live path (deltaAllowed || true)                     caught (1)
+      m2 flagDeltaAllowed set at commit for every delta subscription (no full publication sent yet)     caught (1)
+      m3 broker hands over the OLDEST retained publication as prevPub (wrong base, also after filtered) caught (1)
+      m4 recovered chain: every delta against the first recovered publication (prevPub not advanced)    caught (1)
+      m5 medium keeps the first publication as latestPublication forever (stale local base)            caught (1)
+      m6 JSON escape applied twice to live delta data                                                   see MUT
+      m6' JSON escape not applied to delta data: the server's own encoder rejects the frame and
+          disconnects (DisconnectInappropriateProtocol) - nothing wrong is delivered: drift, exit 2     missed by design
+      m7 recovery-to-live boundary uses the pre-recovery base (= D1 reverted)                           see MUT
+      m8 map recovery: one base shared across keys                                                      see MUT
+  C25 s1 version check `<` instead of `<=` (equal version pushed again)                                 see MUT
+      s2 deltaReady assumed for a key tracked with a version (kept across untrack/track)                see MUT
+      s3 phase 3 of the keyed write does not look the key state up again (push after untrack)           see MUT
+      s4 versionless counter reset on every refresh                                                     see MUT
+      s5 epoch flip does not unsubscribe                                                                see MUT
+"""
 import json
 import os
 import re
@@ -174,13 +217,57 @@ def c25(c):
         res = c.harness(binp, 'sharedpoll', {'compare': True, 'versioned': versioned, 'behaviours': behs}, timeout=1800)
         _absorb_sp(c, res, total)
         c.cov['samples'] += res['samples'][:1]
+    # 4. real timers: seeded free-running schedules with the refresh timer on (25 ms); same frame monitors plus
+    #    "every tracking connection holds the backend's newest payload within 6 s after the last operation"
+    res = c.harness(binp, 'spfree', {'n': 24 if quick else 240, 'ops': 60}, timeout=1800)
+    _absorb_sp(c, res, total)
     c.cov['traces_validated_against_impl'] = total['completed']
     c.cov['evaluations'] = total['executed']
     c.cov['replay_counters'] = total['counters']
 
 
 CHECKS = {'C14': c14, 'C25': c25}
+_n14 = ('Bounds: exhaustive (reference design): stream paths <=3 publications (4 thorough), history size 2, <=1 wire fault (2 thorough), 2 subscribe '
+        'sessions (3 thorough), kinds positioned / recoverable / non-positioned with and without history, tags filter on/off, channel medium '
+        '(KeepLatestPublication) on/off, both tags-filter policies; map paths 2 keys, 4 updates, 3 subscribes; replay: 600 (quick) simulated stream '
+        'behaviours (<=5 publications, 3 sessions, 2 faults, history clear) x JSON and Protobuf, 150 map behaviours, 80 shared-poll behaviours, plus the '
+        'TLC counterexamples of the as-coded configurations as witnesses. Payloads: seeded distinct JSON documents (with escapes, HTML characters, '
+        '2-4 byte UTF-8, U+2028; every second behaviour ASCII only) and binary blobs (all byte values, fossil grammar characters) of 90-300 bytes sharing '
+        'long substrings. NOT decided by the specification: correctness of the fossil algorithm itself and of the JSON string escaping - they are only '
+        'covered by the byte comparison on these generated payloads (that comparison found the UTF-8 cut defect D2). Not modelled: mixed history / '
+        'no-history publishes into one channel, channel medium with queue / broadcast delay, cache recovery mode with delta, unidirectional transports, '
+        'channel compaction ids, publications without offset inside the subscribe window (known finding C10), concurrent HandlePublication calls for one '
+        'channel (brokers serialise per channel), Redis brokers. Trusted: TLC, lib/tlaparse.py, the fossil library Apply on the client side, the harness '
+        'projection / monitor code.')
+_n25 = ('Bounds: exhaustive (reference design) 2 connections, 1 key (2 versionless thorough), <=1-2 backend changes, 1 publisher restart (epoch flip), 4-5 client / '
+        'publish / revoke operations, every interleaving of worker, publisher, revoker, client commands incl. the two phases of the keyed write; liveness '
+        '(<>[] every tracking connection has the newest payload) under weak fairness of worker / publisher / revoker / track completion with the refresh timer '
+        'on and NO state constraint: 1 connection, 1 key, 1-2 changes, 3 operations (versioned incl. one flip, and versionless). Replay: 160+40+80 (quick) '
+        'simulated behaviours (2 connections, 2 keys, <=5 changes, 12 operations) on JSON / Protobuf, 3 witnesses, 24 free-running schedules of 60 operations '
+        'with the real 25 ms refresh timer. Replay granularity: a thread runs from gate to gate (gates: OnSharedPoll entry / return, the trace-log call between '
+        'phase 1 and the locked enqueue of keyedWritePublication / before the removal write, start / return of SharedPollPublish and SharedPollRevokeKeys); '
+        'track steps 1-4 and 5-7 are one step (no public call between them); the order in which a broadcast visits its subscribers is Go map order, so '
+        'two subscribers passing phase 1 are handled without interleaving. KeepLatestData = true only (delta base from the entry; PrevData from the backend '
+        'and KeepLatestData = false are not modelled), local publish mode (PublishEnabled = false), no notification batching, no track expiry, channel state '
+        'never shut down during a behaviour (ChannelShutdownDelay 1 h), revoke for all users only. Trusted: TLC, lib/tlaparse.py, harness projection / monitor code, '
+        'a hidden connection tracking a sentinel key (worker barrier).')
 META = {
-    'C14': dict(level='model_checking', text='wip', note='wip', technique='wip'),
-    'C25': dict(level='model_checking', text='wip', note='wip', technique='wip'),
+    'C14': dict(level='model_checking',
+                text='Delta.tla / DeltaMap.tla / SharedPoll.tla model delta negotiation and base tracking with payloads as identities: the client model holds one payload per '
+                     'subscription (per key for map and keyed channels, kept across resubscribes like the SDKs), the server side is transcribed from the code (first-full rule / '
+                     'flagDeltaAllowed, broker prevPub vs medium latestPublication, filtered publications, recovered chains, recovery-to-live boundary, per-key deltaReady / version / '
+                     'base version, wire faults). TLC checks exhaustively that in the reference design every delta(base, p) meets held = base; for every place where the code as written '
+                     'differs from that reference TLC produces a counterexample that is replayed on the real code. Simulated behaviours are replayed on real clients that negotiated fossil '
+                     'delta (JSON and Protobuf) with the publications held back and delivered / dropped / duplicated / reordered as the model says; the harness client applies the REAL delta '
+                     'bytes with the fossil Apply to the bytes it holds and compares with the published bytes - only that comparison decides a violation.',
+                note=_n14, technique='TLA+ spec + TLC exhaustive; gate replay of TLC behaviours and counterexamples on real clients; observable-only byte-level monitor'),
+    'C25': dict(level='model_checking',
+                text='SharedPoll.tla models the shared-poll channel state (entry version / data / needsBroadcast / freshFromPublish, pendingHubJoin, keyed hub, synthetic version counter, '
+                     'notification queue, epoch), per-connection key state (version, deltaReady) and the threads of the code one critical section per action: track (steps 1-4, 5-7), untrack, '
+                     'unsubscribe, refresh worker (backend call, epoch flip, per-client unsubscribe, item application, broadcast), publisher, revoker, and the keyed write as Prepare (outside the lock) '
+                     'and LockedEnqueue. Action properties on every appended frame (version strictly increasing per connection and key, delta base = held payload, update only for a tracked key), an '
+                     'epoch invariant and a liveness property are checked by TLC on the reference design; the three places where the code as written violates them are replayed on the real code from '
+                     'TLC counterexamples. Simulated behaviours are replayed on a real node with a scripted OnSharedPoll backend, the threads parked at natural gates; the monitors run on the real '
+                     'frames (deltas applied with the real fossil Apply); free-running seeded schedules with the real refresh timer check the same monitors plus convergence to the newest payload.',
+                note=_n25, technique='TLA+ spec + TLC exhaustive safety and liveness; gate replay of TLC behaviours and counterexamples; free-running driver with observable-only monitors'),
 }
